@@ -37,7 +37,8 @@ Inductive item :=
 | IBlock (b : name)                     (* {% block b %} call site; body and flags in the block table *)
 | ISuper (k : nat)                      (* {{ super() }} (k = 0), {{ super.super() }} (k = 1), ... *)
 | ISelf (b : name)                      (* {{ self.b() }} *)
-| IFor (v : name) (vals : list str) (body : list item).   (* {% for v in [..] %}body{% endfor %} *)
+| IFor (iters : list vars) (body : list item).   (* {% for v in [..] %}body{% endfor %}: per iteration the names the
+                                                     loop binds (v, and loop.index as a variable of its own) *)
 
 Record bdef := { b_scoped : bool; b_required : bool; b_body : list item }.
 
@@ -154,8 +155,8 @@ Section Exec.
         | None => Err EUndefined
         | Some st => match st with [] => Err EInternal | f :: _ => call f ctx end
         end
-    | IFor v vals body =>
-        seqmap (fun x => seqmap (exec_item ((v, x) :: L)) body) vals
+    | IFor iters body =>
+        seqmap (fun bs => seqmap (exec_item (bs ++ L)) body) iters
     end.
 
   Definition exec_items (L : vars) (its : list item) : res := seqmap (exec_item L) its.
